@@ -119,7 +119,7 @@ class C05(Check):
         import yaw  # noqa: F401
 
     # ------------------------------------------------------------------
-    def _build_world(self, tmp, rng, P, name="base"):
+    def _build_world(self, tmp, rng, P, name="base", many=False):
         r = np.deg2rad(0.7)
         centres = cats.layout_centres(rng, P, r * 1.5)
         cobj = cats.coords_obj(centres)
@@ -143,6 +143,25 @@ class C05(Check):
         mk("unk", rng.integers(8, 30, P), False)
         mk("rr", rng.integers(10, 30, P), False)
         mk("ur", rng.integers(10, 30, P), False)
+        if name == "base":
+            # catalogs with more than 256 patches (patch numbers beyond the small-integer cache of the interpreter,
+            # beyond one byte): 300 compact patches on a grid, three objects each
+            npatch = 300 if many else 0
+            gi, gj = np.divmod(np.arange(npatch), 20)
+            cra, cdec = np.deg2rad(100.0 + 1.5 * gj), np.deg2rad(-12.0 + 1.5 * gi)
+            for nm, per in ((("many", 3), ("many_rand", 4)) if many else ()):
+                pid_ = np.repeat(np.arange(npatch), per)
+                ra_ = cra[pid_] + rng.normal(0, np.deg2rad(0.2), len(pid_))
+                dec_ = cdec[pid_] + rng.normal(0, np.deg2rad(0.2), len(pid_))
+                cats.create(tmp / world / nm, cats.table(ra_, dec_, z=rng.uniform(0.1, 1.0, len(pid_))),
+                            centers=cats.coords_obj(np.column_stack([cra, cdec])))
+            # a catalog with one very large patch (more records than 2^20 / 8 and than 10^5): loaded with the
+            # metadata computation forced and histogrammed, never pair-counted
+            nbig = 140_000
+            xyz = np.concatenate([gen.cap_points(rng, centres[0], r, nbig), gen.cap_points(rng, centres[1], r, 300)])
+            ra, dec = gen.xyz_to_radec(xyz)
+            cats.create(tmp / world / "big", cats.table(ra, dec, z=rng.uniform(0.05, 1.05, len(ra)), w=rng.uniform(0.5, 2, len(ra)),
+                                                       patch=np.concatenate([np.zeros(nbig, int), np.ones(300, int)])))
 
     closed = "right"
 
@@ -159,7 +178,9 @@ class C05(Check):
         shutil.copytree(tmp / "base", work)
         for f in work.glob("*/patch_*/meta.yml"):
             f.unlink()
-        res["load_compute_meta"] = "|".join(ser_catalog(Catalog(work / k, max_workers=max_workers)) for k in ("ref", "unk"))
+        res["load_compute_meta"] = "|".join(ser_catalog(Catalog(work / k, max_workers=max_workers)) for k in ("ref", "unk", "big"))
+        hb = HistData.from_catalog(Catalog(work / "big", max_workers=max_workers), cfg, max_workers=max_workers)
+        res["hist_big_data"], res["hist_big_samples"] = ser_hist(hb)
         shutil.rmtree(work)
         shutil.copytree(tmp / "base", work)
         c = {k: Catalog(work / k, max_workers=max_workers) for k in ("ref", "unk", "rr", "ur")}
@@ -170,9 +191,18 @@ class C05(Check):
         if entry == "all":
             res["cross"] = ser_corrfuncs(yaw.crosscorrelate(cfg, c["ref"], c["unk"], ref_rand=c["rr"], unk_rand=c["ur"], max_workers=max_workers))
             res["auto"] = ser_corrfuncs(yaw.autocorrelate(cfg, c["ref"], c["rr"], max_workers=max_workers))
+            if (work / "many").exists():
+                many = {k: Catalog(work / k, max_workers=max_workers) for k in ("many", "many_rand")}
+                res["auto_many_patches"] = ser_corrfuncs(yaw.autocorrelate(cfg, many["many"], many["many_rand"], count_rr=True, max_workers=max_workers))
             # separation weighting on physical scales (the angular grid differs from redshift bin to redshift bin)
             cfg_rw = Configuration.create(rmin=[0.1, 0.5], rmax=[2.0, 8.0], unit="Mpc", rweight=-0.8, resolution=12,
                                           edges=[0.1, 0.4, 0.7, 1.0], closed=self.closed)
+            # a cosmology that carries the name of a stock model but other parameters (physical scales)
+            import astropy.cosmology
+
+            cfg_nm = Configuration.create(rmin=[0.1, 0.5], rmax=[2.0, 8.0], unit="Mpc", edges=[0.1, 0.4, 0.7, 1.0], closed=self.closed,
+                                          cosmology=astropy.cosmology.FlatLambdaCDM(H0=58.0, Om0=0.42, name="Planck18"))
+            res["cross_named_cosmology"] = ser_corrfuncs(yaw.crosscorrelate(cfg_nm, c["ref"], c["unk"], unk_rand=c["ur"], max_workers=max_workers))
             res["cross_rweight"] = ser_corrfuncs(yaw.crosscorrelate(cfg_rw, c["ref"], c["unk"], ref_rand=c["rr"], unk_rand=c["ur"], max_workers=max_workers))
             # the same measurement after another binning was used sequentially on the same caches and
             # in the same process (in-process memos must not leak into / out of pool workers)
@@ -197,7 +227,7 @@ class C05(Check):
         self.closed = "left" if case_bits(case, "closed") % 2 else "right"  # objects pickled to workers must keep the closed side
         nontrivial = True
         with Scratch("c05") as tmp:
-            self._build_world(tmp, rng, P)
+            self._build_world(tmp, rng, P, many=(case["kind"] == "real" and case_bits(case, "many-patches") % 2 == 0))
             os.environ["YAW_NUM_THREADS"] = "1"
             if case["kind"] == "real":
                 # the sequential reference runs in its own process: pool workers are forked from a parent that has
